@@ -57,8 +57,12 @@ def run_case(case: dict) -> dict:
             lines.append("x" * (part - 1) + "\n")
         lines.append("# SPDX-SnippetBegin\n")
         lines += [filler] * 3
+    elif case["place"] == "beyond" and case.get("wide"):
+        lines += ["\u6587\u5b57\u5217\u3092\u57cb\u3081\u308b\u884c " * 3 + "\u00e9\u00a9\n"] * 60   # 80 bytes / 28 characters a line: > 4096 bytes, < 1700 characters
     elif case["place"] == "beyond":
         lines += [filler] * 56            # > 4096 bytes
+    elif case.get("wide"):
+        lines += ["\u6587\u5b57\u5217\u3092\u57cb\u3081\u308b\u884c " * 3 + "\u00e9\u00a9\n"] * 30    # < 4096 bytes: still inside the window
     lines.append(g["line"] + "\n")
     lines.append("some code follows\n")
     if case["snippet"] and not case.get("marker_at"):
@@ -102,7 +106,8 @@ def run(ctx: core.Ctx) -> int:
         "being framed, are outside the domain (the author's intent is undecidable there)",
         "licence values are written in the reader's normal form (single blanks, upper-case operators)",
         "the copyright sign and other non-ASCII text are exercised by C20 / C07; here values are ASCII",
-        "a tag line straddling byte 4096 is not generated",
+        "a tag line straddling byte 4096 is not generated; the 4 KiB window is measured in bytes (filler of ASCII and of "
+        "multi-byte characters on both sides of it)",
     ]
     ctx.write_module("StyleTable", binding.style_table_module(annmodel.style_table()))
     mc = ctx.mc("TagLineGen", "MC_C02.cfg")
@@ -119,7 +124,7 @@ def run(ctx: core.Ctx) -> int:
             j = i // 5
             place = "beyond" if j % 2 else "head"
             cases.append({"tid": len(cases) + 1, "g": g, "via": "lint", "place": place, "snippet": bool(j % 4 >= 2),
-                          "poison": j % 7 == 0, "eol": ["\n", "\r\n", "\r"][j % 3]})
+                          "poison": j % 7 == 0, "eol": ["\n", "\r\n", "\r"][j % 3], "wide": j % 3 == 1})
     # the snippet marker at byte offsets around multiples of the 4 KiB window (LF files; offsets are byte-exact there)
     basic = [g for g in gens if g["c"]["tag"] in ("lic", "cop") and not g["c"]["frame"]][:: max(1, len(gens) // 40)]
     for gi, g in enumerate(basic):
